@@ -124,12 +124,6 @@ def firstFail (l : List (String × Bool)) : String :=
 
 def allFin (a : Array Float) : Bool := a.all fin
 
-/-- the product of the spectrum, block by block: a real eigenvalue contributes `d`, a
-conjugate pair `d² + e²` (counted at its positive member) -/
-def spectrumProd (n : Nat) (d e : Nat → Rat) : Rat :=
-  (List.range n).foldl (fun acc i =>
-    if e i > 0 then acc * (d i * d i + e i * e i) else if e i < 0 then acc else acc * d i) 1
-
 /-- exploration of one decomposition. Returns (verdict, report tokens). -/
 def eigVerdict (n : Nat) (A : Array Float) (sym : Bool) (d e V : Array Float) : String × String :=
   if !(allFin A) then ("-", "") else
@@ -158,7 +152,7 @@ def eigVerdict (n : Nat) (A : Array Float) (sym : Bool) (d e V : Array Float) : 
   -- no eigenvector may vanish
   let vecOk := (List.range n).all fun j => col1 n v j > 0
   let tr := rsum ((List.range n).map fun i => rget n a i i)
-  let sd := rsum ((List.range n).map dq)
+  let sd := spectrumSum n dq        -- the model's definitions (theorem spectrum_trace_det)
   let trUnit := eps * (n : Rat) * mu
   let trOk := rabs (sd - tr) ≤ cTrace * trUnit
   let trRatio := if trUnit == 0 then (if sd == tr then 0 else 1000000000) else rabs (sd - tr) / trUnit
